@@ -91,6 +91,8 @@ class CallMixin(object):
             return self.call_ext(st, fn.dotted, args, kwargs, node, module)
         if isinstance(fn, ValMeth):
             return self.call_method(st, fn.recv, fn.name, args, kwargs, node, module)
+        if isinstance(fn, Opaque) and hasattr(fn, "recv"):
+            return self.call_method(st, fn.recv, fn.attr, args, kwargs, node, module)
         raise AnalysisError("E5.call", "call of %r" % (fn,), node, module)
 
     def construct(self, st, cls, args, kwargs, node, module):
@@ -658,7 +660,7 @@ class CallMixin(object):
         if name == "copy":
             return self.alloc(st, o.copy())
         if name == "pop":
-            self.event("map_mutation", node, module, st, what="pop")
+            self.event("map_mutation", node, module, st, what="pop", map=ref.id)
             k = args[0]
             if isinstance(k, Const) and k.v in o.entries:
                 p, v = o.entries[k.v]
@@ -668,7 +670,7 @@ class CallMixin(object):
                 return v
             return args[1] if len(args) > 1 else Opaque("pop")
         if name == "setdefault":
-            self.event("map_mutation", node, module, st, what="setdefault")
+            self.event("map_mutation", node, module, st, what="setdefault", map=ref.id)
             k = args[0]
             d = args[1] if len(args) > 1 else Const(None)
             if isinstance(k, Const):
@@ -680,7 +682,7 @@ class CallMixin(object):
                 o.set(k.v, TRUE, nv)
                 return nv
         if name in ("update", "clear", "popitem"):
-            self.event("map_mutation", node, module, st, what=name)
+            self.event("map_mutation", node, module, st, what=name, map=ref.id)
             if name == "update" and args and isinstance(args[0], Ref) and st.heap[args[0].id].kind == "map":
                 src = st.heap[args[0].id]
                 for k in src.order:
@@ -859,6 +861,12 @@ class StmtMixin(object):
             if isinstance(base, Const) and isinstance(base.v, (dict, list)):
                 self.event("global_write", target, module, st, what="store into a constant table")
                 return
+            if isinstance(base, Ref) and st.heap[base.id].kind == "list" and isinstance(idx, Const) and isinstance(idx.v, int):
+                o = st.heap[base.id]
+                if all(isinstance(g, Const) and truth_const(g.v) for g, _ in o.items) and -len(o.items) <= idx.v < len(o.items):
+                    self.event("list_store", target, module, st, list=base.id)
+                    o.items[idx.v] = (TRUE, value)
+                    return
             raise AnalysisError("E5.assign", "subscript store on %r" % (base,), node, module)
         raise AnalysisError("E5.assign", "assignment target %s" % type(target).__name__, node, module)
 
@@ -980,7 +988,7 @@ class StmtMixin(object):
                 idx = self.eval(st, env, t.slice)
                 if isinstance(base, Ref) and st.heap[base.id].kind == "map" and isinstance(idx, Const):
                     o = st.heap[base.id]
-                    self.event("map_mutation", s, module, st, what="del")
+                    self.event("map_mutation", s, module, st, what="del", map=base.id)
                     if idx.v in o.entries:
                         o.entries[idx.v] = (FALSE, o.entries[idx.v][1])
                     continue
